@@ -35,6 +35,10 @@ Env0 == <<
     D("Kind", "enum", "Kind", TRUE, B("int"), FALSE, <<"0", "1", "2">>, <<"KA", "KB", "kc">>, <<>>),
     D("Color", "enum", "Color", TRUE, B("string"), FALSE, <<"'red'", "'blue'">>, <<"Red", "Blue">>, <<>>),
     D("Tiny", "enum", "Tiny", TRUE, B("uint8"), FALSE, <<"0", "1">>, <<"T0", "T1">>, <<>>),
+    D("Rank", "enum", "Rank", TRUE, B("int32"), FALSE, <<"1", "2">>, <<"R1", "R2">>, <<>>),
+    D("Prio", "enum", "Prio", TRUE, B("int64"), FALSE, <<"0", "5">>, <<"P0", "P5">>, <<>>),
+    D("Ranks", "named", "Ranks", TRUE, Sl(R("Rank")), FALSE, <<>>, <<>>, <<>>),
+    D("Prios", "named", "Prios", TRUE, Ar(2, R("Prio")), FALSE, <<>>, <<>>, <<>>),
     D("OptId", "struct", "OptId", TRUE, NoTE, FALSE, <<>>, <<>>, <<F("Valid", B("bool")), F("ID", R("IdOther"))>>),
     D("OptRev", "struct", "OptRev", TRUE, NoTE, FALSE, <<>>, <<>>, <<F("N", B("int64")), F("Valid", B("bool"))>>),
     D("OptDate", "struct", "OptDate", TRUE, NoTE, FALSE, <<>>, <<>>, <<F("Valid", B("bool")), F("D", R("MyDate"))>>),
